@@ -1,6 +1,7 @@
 package gen
 
 import (
+	"math/big"
 	"math/rand/v2"
 	"strconv"
 	"strings"
@@ -77,6 +78,33 @@ func NameFamilies(thorough bool) []Family {
 				emit(p + root)
 			}
 		}))
+	}
+	// v4: one label that a wrapping accumulator would fold into 0..255 (2^k*m + d), at every position of 1..4
+	// prefix labels, the other labels ordinary octets
+	{
+		var wraps []string
+		for _, k := range []uint{8, 9, 16, 24, 31, 32, 33, 63, 64, 65} {
+			for m := int64(1); m <= 2; m++ {
+				for _, d := range []int64{-1, 0, 1, 10, 255} {
+					v := new(big.Int).Lsh(big.NewInt(m), k)
+					wraps = append(wraps, v.Add(v, big.NewInt(d)).String())
+				}
+			}
+		}
+		var xs []string
+		for k := 1; k <= 4; k++ {
+			for pos := 0; pos < k; pos++ {
+				for _, w := range wraps {
+					parts := []string{"1", "10", "0", "255"}[:k]
+					parts = append([]string{}, parts...)
+					parts[pos] = w
+					for _, root := range []string{"in-addr.arpa", "IN-ADDR.ARPA.", "ip6.arpa"} {
+						xs = append(xs, strings.Join(parts, ".")+"."+root, "host."+strings.Join(parts, ".")+"."+root)
+					}
+				}
+			}
+		}
+		fams = append(fams, List("v4wrap", xs))
 	}
 	// v6: nibble runs of every length with one distinguished label at every
 	// position, junk in front, every root spelling
